@@ -23,6 +23,7 @@ import Heathcliff.Props.C14
 import Heathcliff.Props.C17
 import Heathcliff.Props.C18
 import Heathcliff.Model.Evaluator
+import Heathcliff.Model.KeySwitch
 import Heathcliff.Proofs.C07L
 import Heathcliff.Proofs.C08C
 namespace HC
@@ -715,5 +716,123 @@ theorem nv_divideUint : ∃ r q, divideUint [2^64 - 1, 5] [3, 2^63] 2 = .ok (r, 
   obtain ⟨r, q, h1, _, _, _, _, h6, h7⟩ := divideUint_spec (a := [2^64 - 1, 5]) (d := [3, 2^63]) (n := 2) (by decide) nv_limbs.1 nv_limbs.2
     rfl rfl (by decide)
   exact ⟨r, q, h1, h6, h7⟩
+
+/-! ## key switching: the bundles `KeyLevel.WF`, `c04t_Canon`, `c04t_KeyCanonAt`, `c04t_InvP`, `c04t_KSInput` of Proofs/C04T.lean
+      (not part of this project copy: the FIELDS are proved, with `c04t_keyIndex kl dsz i = if i = dsz then ms.size − 1 else i` and
+      `c04t_P = (last modulus).value` written out).  Key level {97, P = 113}, one decomposition digit, a genuine key-switching key
+      from s' = X + X² − X³ to s = 1 − X + X³ (mask a, error e = (1, 0, −1, 1)): k0 = −a·s + e + P·s' (component 97 only), k1 = a. -/
+
+def nv_kl : KeyLevel := ⟨4, #[nv_m97, nv_m113], #[nv_t97, nv_t113], #[⟨91, 17305708357809991722⟩], 14, nv_m17⟩
+def nv_sk' : Array Int := #[0, 1, 1, -1]
+def nv_kskey : KSKey := #[#[#[#[45, 23, 8, 22], #[44, 82, 82, 10]], #[#[59, 0, 36, 50], #[16, 14, 101, 47]]]]
+def nv_kstarget : RnsPoly := #[#[73, 12, 45, 82]]
+def nv_ksct : Ct := ⟨#[#[#[69, 3, 49, 39]], #[#[0, 0, 0, 0]]], false, 1⟩
+
+/-- fields of `KeyLevel.WF nv_kl` -/
+theorem nv_kl_wf_fields : nv_kl.tables.size = nv_kl.ms.size ∧
+    ∀ i, i < nv_kl.ms.size → (nv_kl.tb i).WF ∧ (nv_kl.tb i).modulus = nv_kl.m i ∧ 2^(nv_kl.tb i).k = nv_kl.n := by
+  refine ⟨by rfl, ?_⟩
+  intro i hi
+  have hi' : i < 2 := hi
+  interval_cases i
+  · exact ⟨nv_t97_wf, by rfl, by rfl⟩
+  · exact ⟨nv_t113_wf, by rfl, by rfl⟩
+
+/-- remaining fields of `c04t_KSInput nv_kl 1 nv_ksct nv_kstarget nv_kskey` (hsz, hd, hks, htarget, hkey, hov, hct, hinv) -/
+theorem nv_ksinput_fields :
+    2 ≤ nv_kl.ms.size ∧ 1 + 1 ≤ nv_kl.ms.size ∧ 1 ≤ nv_kskey.size ∧
+    (∀ j, j < 1 → (nv_kstarget.getD j #[]).size = nv_kl.n ∧ ∀ l, l < nv_kl.n → (nv_kstarget.getD j #[]).getD l 0 < (nv_kl.m j).value) ∧
+    (∀ i, i ≤ 1 → ∀ j, j < 1 → ∀ k, k < (nv_kskey.getD 0 #[]).size →
+      (((nv_kskey.getD j #[]).getD k #[]).getD (if i = 1 then nv_kl.ms.size - 1 else i) #[]).size = nv_kl.n ∧
+      ∀ l, l < nv_kl.n → (((nv_kskey.getD j #[]).getD k #[]).getD (if i = 1 then nv_kl.ms.size - 1 else i) #[]).getD l 0
+        < (nv_kl.m (if i = 1 then nv_kl.ms.size - 1 else i)).value) ∧
+    (∀ i, i ≤ 1 → 1 * (4 * (nv_kl.m (if i = 1 then nv_kl.ms.size - 1 else i)).value
+        * (nv_kl.m (if i = 1 then nv_kl.ms.size - 1 else i)).value) < 2^128) ∧
+    (∀ k, k < (nv_kskey.getD 0 #[]).size → ∀ j, j < 1 → ((nv_ksct.polys.getD k #[]).getD j #[]).size = nv_kl.n ∧
+      ∀ l, l < nv_kl.n → ((nv_ksct.polys.getD k #[]).getD j #[]).getD l 0 < (nv_kl.m j).value) ∧
+    (∀ j, j < 1 → WFOp (nv_kl.m j) (nv_kl.invPModQ.getD j default) ∧
+      ((nv_kl.invPModQ.getD j default).operand * (nv_kl.m (nv_kl.ms.size - 1)).value) % (nv_kl.m j).value = 1) := by
+  refine ⟨by decide, by decide, by decide, by decide +kernel, by decide +kernel, by decide +kernel, by decide +kernel, by decide +kernel⟩
+
+/-- the model switches the key: phase (51, 39, 22, 23) under s' becomes (52, 39, 21, 24) under s — the key-switching noise (1, 0, −1, 1) -/
+theorem nv_switchKey : ∃ ct', switchKey nv_kl .bfv 1 nv_ksct nv_kstarget nv_kskey = .ok ct' ∧
+    ct'.polys = #[#[#[65, 12, 17, 9]], #[#[1, 79, 51, 65]]] ∧
+    dotProductCtSk nv_level1 nv_sk' ⟨#[nv_ksct.polys.getD 0 #[], nv_kstarget], false, 1⟩ = .ok #[#[51, 39, 22, 23]] ∧
+    dotProductCtSk nv_level1 nv_sk ct' = .ok #[#[52, 39, 21, 24]] := by
+  have hv : (switchKey nv_kl .bfv 1 nv_ksct nv_kstarget nv_kskey).toOption.map (fun c => (c.polys, c.ntt, c.cf))
+      = some (#[#[#[65, 12, 17, 9]], #[#[1, 79, 51, 65]]], false, 1) := by decide +kernel
+  cases h : switchKey nv_kl .bfv 1 nv_ksct nv_kstarget nv_kskey with
+  | error e => rw [h] at hv; simp [Except.toOption] at hv
+  | ok c =>
+    rw [h] at hv
+    simp only [Except.toOption, Option.map_some, Option.some.injEq, Prod.mk.injEq] at hv
+    obtain ⟨c1, c2, c3⟩ := c
+    simp only at hv
+    obtain ⟨rfl, rfl, rfl⟩ := hv
+    exact ⟨_, rfl, rfl, nv_ok_of_toOption (by decide +kernel), nv_ok_of_toOption (by decide +kernel)⟩
+
+/-- refusals: NTT-form input for BFV; more digits than the key level has moduli -/
+theorem nv_switchKey_refuse : switchKey nv_kl .bfv 1 { nv_ksct with ntt := true } nv_kstarget nv_kskey = .error .refused ∧
+    switchKey nv_kl .bfv 2 nv_ksct nv_kstarget nv_kskey = .error .refused :=
+  ⟨nv_err_of (by decide +kernel), nv_err_of (by decide +kernel)⟩
+
+/-! ## Property theorems -/
+
+/-- NON-VACUITY, bundles: every well-formedness bundle used as a hypothesis by the property theorems has a concrete, non-trivial
+    inhabitant, all in ONE consistent world (N = 4, q = {97, 113}, t = 17, 61-bit auxiliary primes) -/
+theorem nonvac_bundles :
+    nv_m17.WF ∧ nv_m97.WF ∧ nv_m113.WF ∧ WFOp nv_m97 ⟨22, 4183797624965052943⟩ ∧
+    nv_t17.WF ∧ nv_t97.WF ∧ nv_t113.WF ∧ nv_base.WF ∧ nv_base17.WF ∧ nv_base97.WF ∧
+    nv_level.WF ∧ nv_level1.WF ∧ RnsCanon nv_level nv_c0 ∧ RnsCanon nv_level nv_c1 ∧ RnsCanon nv_level nv_c0enc ∧
+    FreshOK 4 17 10961 ∧ IsPrim 4 97 33 ∧ Nat.Prime nv_m97.value ∧
+    Rng.ByteXof nv_xof ∧ Rng.ByteSt (Rng.fromSeed [1, 2, 3]) ∧ Rng.randUniform.Contract ∧
+    (∀ e, (Codec.ctC nv_cctx e).valid nv_cct) ∧ Codec.CtDefaults nv_cctx nv_cct ∧
+    Limbs [2^64 - 1, 5] ∧ ctValidFor nv_level ⟨#[nv_c0enc, nv_c1], false, 1⟩ = true ∧
+    Conc.Productive C17.natAlg true [0, 1, 0, 0, 1, 1, 0, 1] (Conc.init C17.natAlg 1 [3, 2]) :=
+  ⟨nv_m17_wf, nv_m97_wf, nv_m113_wf, nv_op_wf, nv_t17_wf, nv_t97_wf, nv_t113_wf, nv_base_wf, nv_base17_wf, nv_base97_wf,
+   nv_level_wf, nv_level1_wf, nv_c0_canon, nv_c1_canon, nv_c0enc_canon, nv_freshOK, nv_isPrim.1, nv_prime97,
+   nv_xof_byte, Rng.byteSt_fromSeed _, Rng.randUniform_contract, nv_cct_valid, nv_cct_defaults, nv_limbs.1, nv_ct_valid, nv_productive⟩
+
+/-- NON-VACUITY, constructors: the inhabitants are what the model's constructors return -/
+theorem nonvac_constructors :
+    Modulus.mk? 17 = .ok nv_m17 ∧ Modulus.mk? 97 = .ok nv_m97 ∧ Modulus.mk? 113 = .ok nv_m113 ∧
+    MulOperand.new 22 nv_m97 = .ok ⟨22, 4183797624965052943⟩ ∧
+    NTTTables.new 2 nv_m17 true 2 = .ok nv_t17 ∧ NTTTables.new 2 nv_m97 true 64 = .ok nv_t97 ∧ NTTTables.new 2 nv_m113 true 95 = .ok nv_t113 ∧
+    RNSBase.new [nv_m97, nv_m113] = .ok nv_base ∧ RNSBase.new [nv_m17] = .ok nv_base17 ∧ RNSBase.new [nv_m97] = .ok nv_base97 ∧
+    BaseConverter.new nv_base nv_base17 = .ok nv_conv ∧
+    RNSTool.new 4 nv_base nv_m17 [nv_a0, nv_a1, nv_a2, nv_a3] = .ok nv_tool ∧
+    RNSTool.new 4 nv_base97 nv_m17 [nv_a0, nv_a1, nv_a2, nv_a3] = .ok nv_tool1 :=
+  ⟨nv_m17_mk, nv_m97_mk, nv_m113_mk, nv_op_new, nv_t17_new.1, nv_t97_new, nv_t113_new, nv_base_new, nv_base17_new, nv_base97_new,
+   nv_conv_new, nv_tool_new, nv_tool1_new⟩
+
+/-- NON-VACUITY, refusals: the constructors do refuse (the `.error` branches are reachable) -/
+theorem nonvac_refusals :
+    Modulus.mk? 1 = .error .refused ∧ NTTTables.new 4 nv_m17 true 2 = .error .refused ∧ RNSBase.new [nv_m97, nv_m97] = .error .refused ∧
+    RNSTool.new 6 nv_base nv_m17 [nv_a0, nv_a1, nv_a2, nv_a3] = .error .refused ∧
+    dotProductCtSk nv_level nv_sk ⟨#[nv_c0], false, 1⟩ = .error .refused :=
+  ⟨nv_mk_refuses.1, nv_tables_refuse.2.1, nv_base_refuse.2, nv_tool_refuse.1, nv_dot_refuse⟩
+
+/-! end theorems instantiated on the concrete world (statements: see the `nv_…` theorems above) -/
+theorem nonvac_dotProduct_coeff : type_of% @nv_dot_coeff := @nv_dot_coeff
+theorem nonvac_dotProduct_ntt : type_of% @nv_dot_ntt := @nv_dot_ntt
+theorem nonvac_compose_decompose : type_of% @nv_compose_decompose := @nv_compose_decompose
+theorem nonvac_fastConvert : type_of% @nv_fastConvert := @nv_fastConvert
+theorem nonvac_galoisApply : type_of% @nv_galois := @nv_galois
+theorem nonvac_ntt_roundtrip : type_of% @nv_ntt_roundtrip := @nv_ntt_roundtrip
+theorem nonvac_ntt_convolution : type_of% @nv_ntt_convolution := @nv_ntt_convolution
+theorem nonvac_batch_decode_encode : type_of% @nv_batch := @nv_batch
+theorem nonvac_divideAndRoundQLast : type_of% @nv_divRound := @nv_divRound
+theorem nonvac_modTAndDivideQLast : type_of% @nv_modTDiv := @nv_modTDiv
+theorem nonvac_decryptScaleAndRound : type_of% @nv_scaleRound := @nv_scaleRound
+theorem nonvac_smMrq : type_of% @nv_smMrq := @nv_smMrq
+theorem nonvac_fastFloor : type_of% @nv_fastFloor := @nv_fastFloor
+theorem nonvac_fastbconvSk : type_of% @nv_fastbconvSk := @nv_fastbconvSk
+theorem nonvac_bfv_decrypt : type_of% @nv_bfv_decrypt := @nv_bfv_decrypt
+theorem nonvac_decrypt_fresh : type_of% @nv_decrypt_fresh := @nv_decrypt_fresh
+theorem nonvac_modswitch_decrypt : type_of% @nv_ct1_decrypt := @nv_ct1_decrypt
+theorem nonvac_switchKey : type_of% @nv_switchKey := @nv_switchKey
+theorem nonvac_validate : type_of% @nv_validate := @nv_validate
+theorem nonvac_ciphertext_round_trip : type_of% @nv_ct_round_trip := @nv_ct_round_trip
+theorem nonvac_samplers : type_of% @nv_ternary_spec := @nv_ternary_spec
 
 end HC
